@@ -14,7 +14,9 @@ def L(items, ty=None):
     return coq_list(items)
 
 THEOREMS = ['C01_predictions_spec', 'C01_nullable_spec', 'C01_chart_is_language', 'C01_alg_sound', 'C01_alg_complete', 'C01_basic_trace',
-            'C01_fuel_suffices', 'C01_basic', 'C01_general', 'C01_example']
+            'C01_fuel_suffices', 'C01_basic', 'C01_general', 'C01_example',
+            'C01_dynamic_ends', 'C01_dynamic_trace', 'C01_dynamic_fuel', 'C01_dynamic_sound', 'C01_dynamic_complete',
+            'C01_dynamic_strings', 'C01_dynamic_example']
 GEN_DEPS = []
 RULE = ('random CFGs (<=5 non-terminals, <=4 single-character terminals, <=3 alternatives of length <=3; nullable '
         'alternatives, left/right/middle recursion, unit cycles, ambiguity, useless rules; optionally EBNF operators) '
@@ -30,13 +32,18 @@ RULE = ('random CFGs (<=5 non-terminals, <=4 single-character terminals, <=3 alt
         '(character-level derivability with IGN* at the start and after every terminal for the dynamic lexers; '
         'longest-literal tokenisation for basic); anon-names = anonymous punctuation/keyword literals next to user-defined '
         'or imported terminals that occupy the names lark derives from those literals, inputs = sentences, random '
-        'concatenations of the grammar\'s token strings, one-edit mutations')
+        'concatenations of the grammar\'s token strings, one-edit mutations. dyn-model = multi-character string terminals '
+        'with overlapping %ignore strings, and regexp terminals (several match lengths, alternations whose first alternative '
+        'is not the longest) with string/regexp ignores, under dynamic and dynamic_complete: the regex engine\'s answers (the '
+        'parser\'s own term_matcher on every terminal, position and truncation; the calls made during the parse must agree '
+        'with them) are given to Earley/Dyn.dyn_parse as oracle tables; compared '
+        'inside Coq: item sets of every column and to_scan, the keys of delayed_matches after every scan, the outcome')
 TRUSTED_BASE = ['hand model Earley/Alg.v of earley.Parser.predict_and_complete/scan/_parse/parse and Cfg/Analysis.v of '
                 'GrammarAnalyzer.expand_rule (tied by per-column item-set comparison and direct comparison of '
                 'Parser.predictions / NULLABLE)',
-                'for lexer=dynamic/dynamic_complete the model applies only when every terminal is a single character '
-                '(token string = character string); xearley\'s regex scanning, complete_lex and %ignore carry-over are '
-                'not modelled',
+                'hand model Earley/Dyn.v of xearley.Parser._parse/scan (tied by per-column item sets, delayed_matches keys '
+                'and outcome on recorded regex answers); the regex engine itself is an oracle (rmatch/rtrunc) - its answers '
+                'are recorded, not modelled; hypothesis fwd (no empty match) is lark\'s construction-time zero-width check',
                 'the grammar-of-grammars front end and EBNF->BNF compilation are not modelled (compiled rules are read '
                 'back from lark)']
 ASSUMPTIONS = ['terminals of the main streams are distinct single-character strings, so the basic lexer\'s token string '
@@ -796,6 +803,27 @@ def run_dyn_parse(comp, text, timeout=3.0):
     return status, pos, log, rmatch, rtrunc, bad
 
 
+def oracle_tables(comp, text):
+    """what the regex engine answers: rmatch[(t, i)] = end of match(t, text, i); rtrunc[(t, i, lim)] = end of
+    match(t, text[i:lim]) for every proper truncation of that match (the calls complete_lex may make)"""
+    from lark.grammar import Terminal
+    matcher = comp.parser.term_matcher
+    rm, rt = {}, {}
+    for name, t in comp.tid.items():
+        term = Terminal(name)
+        for i in range(len(text)):
+            m = matcher(term, text, i)
+            if m is None:
+                continue
+            rm[(t, i)] = m.end()
+            sm = m.group(0)
+            for j in range(1, len(sm)):
+                m2 = matcher(term, sm[:-j])
+                if m2 is not None:
+                    rt[(t, i, i + len(sm) - j)] = i + m2.end()
+    return rm, rt
+
+
 def check_dyn_grammar(ctx, rng, gtext, inputs, cases, meta, oracle=None):
     """oracle(text, complete) -> bool | None: optional text-level membership (string-only grammars)"""
     comps = {}
@@ -845,6 +873,14 @@ def check_dyn_grammar(ctx, rng, gtext, inputs, cases, meta, oracle=None):
                 ctx.violation('correspondence:error-position', {'no_longer_checks': 'error position', **w}, False,
                               'UnexpectedCharacters at %s, scan(%d) raised' % (pos, ncols - 1))
             keys = [k for (_i, _c, _s, k) in log[1:]]
+            # the oracle tables are computed independently of which calls the parser made (so that the model, not
+            # the code, decides where the engine is consulted); the recorded calls must agree with them
+            full_m, full_t = oracle_tables(comp, text)
+            if any(full_m.get(k) != v for k, v in rmatch.items()) or any(full_t.get(k) != v for k, v in rtrunc.items()):
+                ctx.violation('correspondence:oracle-recording', {'no_longer_checks': 'recorded term_matcher answers', **w},
+                              False, 'term_matcher answers recorded during the parse differ from direct calls')
+                continue
+            rmatch, rtrunc = full_m, full_t
             mt = sorted((t * 64 + i) * 64 + e for (t, i), e in rmatch.items() if e is not None)
             tt = sorted(((t * 64 + i) * 64 + lim) * 64 + e for (t, i, lim), e in rtrunc.items() if e is not None)
             nl = lambda xs: '(' + L(['%d' % x for x in xs], 'N') + ')%N'
@@ -913,7 +949,7 @@ def correspond(ctx):
     meta = {'earley': [], 'pred': [], 'null': []}
     seen = set()
     t0 = time.time()
-    n_cfg = ctx.scale(50, 900) * wide
+    n_cfg = ctx.scale(40, 900) * wide
     n_ebnf = ctx.scale(12, 150) * wide
     n_ign = ctx.scale(10, 100) * wide
     n_exh, n_extra = ctx.scale(24, 50), ctx.scale(8, 16)
@@ -937,8 +973,12 @@ def correspond(ctx):
     ctx.extra['lark_seconds'] = round(time.time() - t0, 1)
     run_exotic(ctx)
     t1 = time.time()
-    run_coq(ctx, cases, meta)
-    run_dyn_coq(ctx, cases, meta)
+    from concurrent.futures import ThreadPoolExecutor
+    with ThreadPoolExecutor(max_workers=2) as ex:      # the two model comparisons are independent
+        f1 = ex.submit(run_coq, ctx, cases, meta)
+        f2 = ex.submit(run_dyn_coq, ctx, cases, meta)
+        f1.result()
+        f2.result()
     ctx.extra['coq_seconds'] = round(time.time() - t1, 1)
 
 
